@@ -466,7 +466,7 @@ var overridable = []struct {
 	{"--jump-labels", []string{"abc", "xyz12"}}, {"--ellipsis", []string{"..", "~"}}, {"--preview", []string{"echo {}", "cat {}", ""}}, {"--margin", []string{"1", "5%", "1,2"}},
 	{"--padding", []string{"0", "2", "1,2,3,4"}}, {"--with-shell", []string{"sh -c", "bash -c"}}, {"--wrap-sign", []string{">", ">>"}}, {"--gap", []string{"1", "2"}},
 	{"--color", []string{"dark", "light", "16", "bw"}}, {"--expect", []string{"ctrl-a", "f1,f2"}}, {"--walker", []string{"file", "file,dir", "dir,hidden,follow"}},
-	{"--walker-skip", []string{".git", "a,b"}}, {"--ghost", []string{"type", "here"}}, {"--separator", []string{"-", "=="}}, {"--scrollbar", []string{"|", "x"}},
+	{"--walker-skip", []string{".git", "a,b", ""}}, {"--ghost", []string{"type", "here"}}, {"--separator", []string{"-", "=="}}, {"--scrollbar", []string{"|", "x"}},
 	{"--history-size", []string{"5", "50"}}, {"--print-query", nil}, {"--read0", nil}, {"--print0", nil}, {"--ansi", nil}, {"--exact", nil}, {"--cycle", nil},
 	{"--track", nil}, {"--tac", nil}, {"--no-sort", nil}, {"--sync", nil}, {"--literal", nil}, {"--no-mouse", nil}, {"--keep-right", nil}, {"--wrap", nil},
 	{"--select-1", nil}, {"--exit-0", nil}, {"--highlight-line", nil}, {"--no-hscroll", nil}, {"--filepath-word", nil}, {"--no-input", nil},
